@@ -113,6 +113,18 @@ PROPS = {
                  "public key, truncated, future iat with a foreign key)"],
         assumptions=["the connection kind is what RemoteAddr().Network() reports"],
     ),
+    "C05": dict(
+        lean_props="Receptor.Props.C05",
+        engines=[dict(engine="results", pkg="pkg/workceptor", test="TestVerifResults", n_quick=12, n_thorough=60)],
+        corr_ops={"results": ["units"]},
+        facts=["res_end_cond", "res_nostdout_cond", "res_iscomplete", "res_buffer", "res_loop", "res_remote_offset", "res_remote_write"],
+        trusted=["the unit's discipline: output is appended only before the final status, the recorded size never exceeds the file size and "
+                 "the final status records the file size (what command.go's runner and STDoutWriter do; played by the harness)",
+                 "the remote mirror (monitorRemoteStdout) is tied by facts and proved on the model (mirror_prefix, mirror_completes); "
+                 "it is not exercised across real link cuts by this check (two nodes, 45 s dead-peer detection)",
+                 "os.File Seek/Read semantics; the 250 ms / 1 s polling intervals are real time"],
+        assumptions=["'ends' is observed as: the server closes the stream within 4 s after the final status was written"],
+    ),
     "C08": dict(
         lean_props="Receptor.Props.C08",
         engines=[dict(engine="ctl", pkg="pkg/workceptor", test="TestVerifCtl", n_quick=120, n_thorough=1200)],
